@@ -8,9 +8,10 @@ vars == <<l, bad>>
 Init == l = 1 /\ bad = <<>>
 Step == /\ l <= Len(Log) /\ l' = l + 1
         /\ LET e == Log[l] IN
-           IF e.ev = "accessor" /\ (e.panic \/ e.mutated \/ ~ObsOK(e.acc, e.class, e.outcome, e.got, e.want))
+           IF e.ev = "accessor" /\ (e.panic \/ e.mutated \/ ~ObsOK(e.acc, e.class, e.outcome, e.got, e.want) \/ ~AgainOK(e.outcome, e.again, e.want))
            THEN bad' = Append(bad, [line |-> l, why |-> IF e.panic THEN "panic" ELSE IF e.mutated THEN "reading changed the object"
-                                                         ELSE IF e.outcome \notin Allowed(e.acc, e.class) THEN "wrong classification" ELSE "value differs from the JSON"])
+                                                         ELSE IF e.outcome \notin Allowed(e.acc, e.class) THEN "wrong classification"
+                                                         ELSE IF e.got # e.want THEN "value differs from the JSON" ELSE "a later read shows what an earlier holder did to its value"])
            ELSE UNCHANGED bad
 Spec == Init /\ [][Step]_vars
 Done == (l = Len(Log) + 1) => PrintT("VERDICT " \o ToJson([consumed |-> l - 1, bad |-> bad]))
